@@ -110,6 +110,11 @@ type val struct {
 	strs  []string
 	// what the value holds in untyped (interface{}) slots; JSON family only
 	untyped untypedStats
+	// covers, when set, is the relation demanded between the value and a NON-fresh target after Unmarshal ("" = holds);
+	// nil: equal is demanded (targets.go)
+	covers func(want, got any) string
+	// again generates another value of (with high probability) the same Go type: content for pre-populated targets
+	again func(r *vlib.Rand) val
 }
 
 func jsonVal[T any](v *T, strs ...string) val {
@@ -117,10 +122,11 @@ func jsonVal[T any](v *T, strs ...string) val {
 	return val{
 		v:     v,
 		fresh: func() any { return new(T) },
-		equal: func(a, b any) bool { return reflect.DeepEqual(a, b) },
-		desc:  fmt.Sprintf("%T%+v", v, *v),
-		zero:  reflect.DeepEqual(*v, z),
-		strs:  strs,
+		equal:  func(a, b any) bool { return reflect.DeepEqual(a, b) },
+		desc:   fmt.Sprintf("%T%+v", v, *v),
+		zero:   reflect.DeepEqual(*v, z),
+		strs:   strs,
+		covers: coversJSON,
 	}
 }
 
@@ -140,6 +146,7 @@ func genJSONVal(r *vlib.Rand) val {
 		b := EvBlob{Text: strings.Repeat(string(rune('a'+r.Intn(26))), n), N: r.Intn(1000)}
 		v := jsonVal(&b)
 		v.desc = fmt.Sprintf("*c16.EvBlob{Text: %d bytes, N: %d}", n, b.N)
+		v.again = func(r *vlib.Rand) val { return jsonSized(r, r.Intn(3000)) }
 		return v
 	}
 	if r.Chance(0.3) {
@@ -153,7 +160,14 @@ func genJSONVal(r *vlib.Rand) val {
 }
 
 func genTypedJSONVal(r *vlib.Rand) val {
-	switch r.Intn(6) {
+	k := r.Intn(6)
+	v := genTypedJSONValK(r, k)
+	v.again = func(r *vlib.Rand) val { return genTypedJSONValK(r, k) }
+	return v
+}
+
+func genTypedJSONValK(r *vlib.Rand, k int) val {
+	switch k {
 	case 0:
 		s := genScalar(r)
 		return jsonVal(&s, s.S)
@@ -261,7 +275,14 @@ func protoVal(m proto.Message, strs ...string) val {
 }
 
 func genProtoVal(r *vlib.Rand) val {
-	switch r.Intn(13) {
+	k := r.Intn(13)
+	v := genProtoValK(r, k)
+	v.again = func(r *vlib.Rand) val { return genProtoValK(r, k) }
+	return v
+}
+
+func genProtoValK(r *vlib.Rand, k int) val {
+	switch k {
 	case 0:
 		s := genStr(r)
 		return protoVal(wrapperspb.String(s), s)
@@ -361,7 +382,16 @@ func gogoVal(m gogoproto.Message, strs ...string) val {
 }
 
 func genGogoVal(r *vlib.Rand) val {
-	switch r.Intn(12) {
+	k := r.Intn(12)
+	v := genGogoValK(r, k)
+	if v.again == nil { // (the std-family values bring their own)
+		v.again = func(r *vlib.Rand) val { return genGogoValK(r, k) }
+	}
+	return v
+}
+
+func genGogoValK(r *vlib.Rand, k int) val {
+	switch k {
 	case 0:
 		s := genStr(r)
 		return gogoVal(&gogotypes.StringValue{Value: s}, s)
@@ -445,6 +475,7 @@ func runCodec(e *vlib.Env, res *vlib.Result, kind string, gen func(r *vlib.Rand)
 		v    val
 	}
 	var held []heldMsg
+	tb := newTargetBook() // Unmarshal targets that are not fresh zero values (targets.go)
 	defer func() {
 		if res.Failed() {
 			return
@@ -570,6 +601,10 @@ func runCodec(e *vlib.Env, res *vlib.Result, kind string, gen func(r *vlib.Rand)
 			fail("cqrs-roundtrip", "%sUnmarshal(Marshal(v)) = %s differs from v (payload %s)", diff, clip(fmt.Sprintf("%+v", reflect.ValueOf(out).Elem().Interface()), 600), showBytes(msg.Payload))
 			break
 		}
+		// the same message into targets that already carry data: reused between calls, pre-populated
+		if !tb.run(e.R, res, m, msg, v, fail) {
+			break
+		}
 		if len(samples) < 3 && !v.zero {
 			samples = append(samples, map[string]any{"value": clip(v.desc, 300), "name_generator": ngID, "name": gotName, "payload_bytes": len(msg.Payload)})
 		}
@@ -579,6 +614,7 @@ func runCodec(e *vlib.Env, res *vlib.Result, kind string, gen func(r *vlib.Rand)
 	res.Count("unmarshal_from_copy", viaCopy)
 	res.Count("corpus_sweep_strings", sw.used)
 	res.Count("size_ladder_values", len(ladder))
+	tb.report(res)
 	if byValue { // the JSON family
 		res.Count("values_with_numbers_in_untyped_slots", nUntypedNum)
 		res.Count("untyped_slot_numbers", ut.numbers)
@@ -624,8 +660,15 @@ func runGogo(e *vlib.Env, res *vlib.Result) {
 
 // string carriers of the three families: the text sits in a typed string field, a map key and value, an untyped slot, a list
 func jsonStrVal(r *vlib.Rand, s string) val {
+	k := r.Intn(5)
+	v := jsonStrValK(r, s, k)
+	v.again = func(r *vlib.Rand) val { return jsonStrValK(r, genStr(r), k) }
+	return v
+}
+
+func jsonStrValK(r *vlib.Rand, s string, k int) val {
 	var v val
-	switch r.Intn(5) {
+	switch k {
 	case 0:
 		v = jsonVal(&EvScalar{S: s, I: 1}, s)
 	case 1:
@@ -645,7 +688,14 @@ func jsonStrVal(r *vlib.Rand, s string) val {
 }
 
 func protoStrVal(r *vlib.Rand, s string) val {
-	switch r.Intn(4) {
+	k := r.Intn(4)
+	v := protoStrValK(r, s, k)
+	v.again = func(r *vlib.Rand) val { return protoStrValK(r, genStr(r), k) }
+	return v
+}
+
+func protoStrValK(r *vlib.Rand, s string, k int) val {
+	switch k {
 	case 0:
 		return protoVal(wrapperspb.String(s), s)
 	case 1:
@@ -666,7 +716,16 @@ func protoStrVal(r *vlib.Rand, s string) val {
 }
 
 func gogoStrVal(r *vlib.Rand, s string) val {
-	switch r.Intn(4) {
+	k := r.Intn(4)
+	v := gogoStrValK(r, s, k)
+	if v.again == nil {
+		v.again = func(r *vlib.Rand) val { return gogoStrValK(r, genStr(r), k) }
+	}
+	return v
+}
+
+func gogoStrValK(r *vlib.Rand, s string, k int) val {
+	switch k {
 	case 0:
 		return gogoVal(&gogotypes.StringValue{Value: s}, s)
 	case 1:
@@ -685,17 +744,21 @@ func jsonSized(r *vlib.Rand, n int) val {
 	b := EvBlob{Text: strings.Repeat(string(rune('a'+r.Intn(26))), n), N: r.Intn(1000)}
 	v := jsonVal(&b)
 	v.desc = fmt.Sprintf("*c16.EvBlob{Text: %d bytes, N: %d}", n, b.N)
+	v.again = func(r *vlib.Rand) val { return jsonSized(r, r.Intn(3000)) }
 	return v
 }
 
 func protoSized(r *vlib.Rand, n int) val {
+	again := func(r *vlib.Rand) val { return protoSized(r, r.Intn(3000)) }
 	if r.Bool() {
 		v := protoVal(wrapperspb.Bytes(r.Bytes(n)))
 		v.desc = fmt.Sprintf("*wrapperspb.BytesValue{%d bytes}", n)
+		v.again = again
 		return v
 	}
 	v := protoVal(wrapperspb.String(strings.Repeat(string(rune('a'+r.Intn(26))), n)))
 	v.desc = fmt.Sprintf("*wrapperspb.StringValue{%d bytes}", n)
+	v.again = again
 	return v
 }
 
@@ -703,6 +766,7 @@ func gogoSized(r *vlib.Rand, n int) val {
 	if r.Bool() {
 		v := gogoVal(&gogotypes.BytesValue{Value: r.Bytes(n)})
 		v.desc = fmt.Sprintf("*types.BytesValue{%d bytes}", n)
+		v.again = func(r *vlib.Rand) val { return gogoSized(r, r.Intn(3000)) }
 		return v
 	}
 	v := protoSized(r, n)
